@@ -30,17 +30,8 @@ func staticPhases(c *Ctx) map[*ssa.Function]int {
 			if !ok {
 				return true
 			}
-			if cl, ok := rs.X.(*ast.CompositeLit); ok && rowsLit == nil {
-				has := false
-				ast.Inspect(cl, func(m ast.Node) bool {
-					if _, isFL := m.(*ast.FuncLit); isFL {
-						has = true
-					}
-					return !has
-				})
-				if has {
-					rowsLit = cl
-				}
+			if cl := rangedTableLiteral(syn, rs); cl != nil && rowsLit == nil {
+				rowsLit = cl
 			}
 			return true
 		})
